@@ -14,5 +14,10 @@ CHECKS = {
   'design_ref': 'DESIGN.md 5/C13',
   'note': 'Bounds: <= 7 events (thorough 8), <= 2 documents, anchors {a,b}. Identity compared for list, dict, set, constructed objects (and all nodes at compose level). Trusted: TLC, printer and projections in harness/props/c13.py.',
   'technique': 'TLA+ model (Composer.tla) checked by TLC with lazy input choice, every complete stream replayed through compose_all/load_all'},
+ 'C09': {
+  'text': 'spec/Parser.tla models the push-down parser one action per parse_* method with lazy token choice; TLC checks for ALL token sequences up to the bound that no operation crashes, that the emitted events satisfy the event grammar monitor (EventGrammar.tla) and that marks are in range and monotone. Every complete token sequence of the history configuration is replayed through the real Parser over a stub token source; real event streams (stub-driven, and scan/parse of the data corpus and seeded mutations on both back-ends) and token streams are judged by TLC trace specifications (Trace_Events.tla, Trace_Tokens.tla) including line/column = Pos(input, index) and text-between-marks = value.',
+  'design_ref': 'DESIGN.md 5/C09',
+  'note': 'Bounds: design check <= 7 tokens (thorough 9) over 21 token kinds, replay <= 5 (6) tokens; corpus = 574 data files + seeded truncation/insertion/deletion mutants. The full LL(1) token grammar is enforced through the parser model, the scan-only token check covers stream/block brackets and marks. LibYAML: range/order/grammar only. Trusted: TLC, stub driver and projections in harness/props/c09.py.',
+  'technique': 'TLA+ model (Parser.tla + EventGrammar.tla) checked by TLC; MBT replay into the real Parser; TLC trace validation of recorded event/token streams'},
 }
 NOT_YET = {}
